@@ -93,9 +93,11 @@ def _streams_info(pack_pos: int, folders: list[dict], with_crc: bool, substreams
 
 def make_7z(entries: list[dict], *, coder: bytes = LZMA, layout: str = "solid", with_crc: bool = True, with_attrs: bool = True,
             encoded_header: bool = False, mixed_coders: list[bytes] | None = None, header_coder: bytes = LZMA) -> bytes:
-    """entries: [{"name": str, "data": bytes | None (directory), "empty_stream": optional override, "phantom": bool}]
+    """entries: [{"name": str, "data": bytes | None (directory), "empty_stream": optional override, "phantom": bool, "attr": optional int}]
 
     ``phantom``: the entry is *not* flagged as empty stream although no data stream exists for it.
+    ``attr``: Windows attribute word written for the entry instead of the default (0x10 for directories, 0x20 for files), e.g.
+    0x10 on an entry that owns a data stream, 0x20 on an entry without one, 0x8000 | unix mode << 16 as p7zip writes it.
     layout: "solid" (one folder holding all non-empty files) | "per-file" (one folder each) | "pairs" (two files per folder)
     """
     with_data = [e for e in entries if e.get("data") and not e.get("phantom")]
@@ -132,7 +134,7 @@ def make_7z(entries: list[dict], *, coder: bytes = LZMA, layout: str = "solid", 
     names = b"\x00" + b"".join(e["name"].encode("utf-16-le", "surrogatepass") + b"\x00\x00" for e in entries)
     fi += b"\x11" + num(len(names)) + names
     if with_attrs:
-        attrs = b"\x01\x00" + b"".join(struct.pack("<I", 0x10 if e.get("data") is None and not e.get("phantom") else 0x20) for e in entries)
+        attrs = b"\x01\x00" + b"".join(struct.pack("<I", (e["attr"] & 0xFFFFFFFF) if e.get("attr") is not None else (0x10 if e.get("data") is None and not e.get("phantom") else 0x20)) for e in entries)
         fi += b"\x15" + num(len(attrs)) + attrs
     fi += b"\x00"
     header += fi + b"\x00"
